@@ -237,7 +237,12 @@ def build_world(scn: dict, loop: Optional[asyncio.AbstractEventLoop], transport:
         try:
             with warnings.catch_warnings():
                 warnings.simplefilter("ignore")
-                if pair:
+                if pair and not more and cfg.get("connect_one") and not c.get("async"):
+                    kw1 = {k_: v_ for k_, v_ in kwargs.items() if k_ in ("time_shifted", "weak")}
+                    if "init" in c:
+                        kw1["initial_data"] = c["init"]
+                    world.connect_one(ents[c["src"]][c["se"]], ents[c["dst"]][c["de"]], pair[0], pair[1], **kw1)
+                elif pair:
                     world.connect(ents[c["src"]][c["se"]], ents[c["dst"]][c["de"]], pair, *more, **kwargs)
                 else:
                     world.connect(ents[c["src"]][c["se"]], ents[c["dst"]][c["de"]], **kwargs)
